@@ -4,7 +4,7 @@ CONSTANTS
   MaxZ = 3
   Modes = {"default", "zone"}
   MinHedge = {0, 3}
-  Terminals = {TRUE}
+  Preds = {"nottransient"}
   GenCancel = TRUE
   NoCancels = {TRUE, FALSE}
 INIT GInit
